@@ -34,6 +34,7 @@ import GgrsModel.Proofs.Session
 import GgrsModel.Proofs.World
 import GgrsModel.Proofs.DelayStep
 import GgrsModel.Proofs.Demo
+import GgrsModel.Proofs.Pair
 
 namespace Ggrs.SyncLayer
 
@@ -245,5 +246,82 @@ theorem C01_world_nonvacuous :
     (∃ t', SStar (demoSession, ⟨0, fun _ => []⟩) (demoS3, t')) ∧ demoS3.sync.currentFrame = 3 ∧
     (getOk (demoTick demoS1r 6)).2.any (fun r => match r with | .load _ => true | _ => false) = true :=
   ⟨⟨_, SessInv_init demoSession (fun _ => []) 2 rfl rfl rfl⟩, demo_run _, demo_frame3, demo_rollback⟩
+
+end Ggrs
+
+namespace Ggrs
+
+/-- **C01 across two peers (the product, no disconnected players).** Two rollback-mode sessions A and B
+side by side, starting from any pair satisfying the pair invariant (two freshly built sessions do:
+`PPInv_init`). Run ANY interleaving of: either user submitting local inputs, either game writing
+cells, either session's `advance_frame` (its game executing the requests), and arrivals — the next
+frame of a player the other session owns, carrying what the owner's queue holds for it (what
+`C11_owner_sends_queue` and `C05_stream_intact` provide for a link under any loss, duplication and
+reordering; `Half.arrive`). Then, after the rollback phase of the next call on either side, the two
+games' last simulations of every frame `f` both have simulated carry the SAME input for every player
+owned by one of the two sessions, provided both sessions' queues hold that player's frame `f`: the
+confirmed parts of the two timelines coincide, with no assumption about the streams — that the
+receiver's stream is a prefix of the owner's is an invariant of the product (`PPInv_run`). With
+`C01_state_replay` (state = replay of the timeline) two deterministic games that ignore the
+Confirmed/Predicted label are in the same state at every mutually confirmed frame. -/
+theorem C01_agree_two_peers (x y : (P2P × TLState) × (P2P × TLState)) (h0 : PPInv x) (hrun : PStar x y)
+    (nowA nowB : Nat) (sA' sB' : P2P) (reqsA reqsB : List Request)
+    (hcA : y.1.1.advanceRollbackFrame nowA [] = .ok (sA', reqsA))
+    (hcB : y.2.1.advanceRollbackFrame nowB [] = .ok (sB', reqsB)) :
+    ∃ (r1A r1B : List Request),
+      (reqsA = r1A ∨ ∃ ins, reqsA = r1A ++ [.advance ins]) ∧ (reqsB = r1B ∨ ∃ ins, reqsB = r1B ++ [.advance ins]) ∧
+      ∀ p, ((p ∈ y.1.1.localPlayerHandles ∧ p ∉ y.2.1.localPlayerHandles) ∨
+            (p ∈ y.2.1.localPlayerHandles ∧ p ∉ y.1.1.localPlayerHandles)) →
+        p < y.1.1.sync.queues.length → p < y.2.1.sync.queues.length → ∀ f : Nat,
+        (f : Int) < y.1.1.sync.currentFrame → (f : Int) < y.2.1.sync.currentFrame →
+        (f : Int) ≤ (rget y.1.1.sync.queues p).lastAddedFrame → (f : Int) ≤ (rget y.2.1.sync.queues p).lastAddedFrame →
+        (((execReqs y.1.2 r1A).R f).getD p default).1 = (((execReqs y.2.2 r1B).R f).getD p default).1 := by
+  obtain ⟨ghA, ghB, h⟩ := PPInv_run x y h0 hrun
+  obtain ⟨s1A, r1A, g1A, _, _, hsetA, hrightA, _, _, _, hcaseA⟩ := advanceRollbackFrame_spec y.1.1 sA' ghA y.1.2 [] reqsA nowA h.sa hcA
+  obtain ⟨s1B, r1B, g1B, _, _, hsetB, hrightB, _, _, _, hcaseB⟩ := advanceRollbackFrame_spec y.2.1 sB' ghB y.2.2 [] reqsB nowB h.sb hcB
+  refine ⟨r1A, r1B, ?_, ?_, ?_⟩
+  · rcases hcaseA with h | ⟨c, ins, _, h, _⟩
+    · exact Or.inl h
+    · exact Or.inr ⟨ins, h⟩
+  · rcases hcaseB with h | ⟨c, ins, _, h, _⟩
+    · exact Or.inl h
+    · exact Or.inr ⟨ins, h⟩
+  · intro p hown hpA hpB f hfA hfB hqA hqB
+    have hlA : f < (ghA.specs p).vals.length := by
+      have := lastAdded_of_QI (h.sa.tinv.sync.all p hpA)
+      rw [this] at hqA; omega
+    have hlB : f < (ghB.specs p).vals.length := by
+      have := lastAdded_of_QI (h.sb.tinv.sync.all p hpB)
+      rw [this] at hqB; omega
+    have hpA1 : p < s1A.sync.queues.length := by rw [hsetA.nq]; exact hpA
+    have hpB1 : p < s1B.sync.queues.length := by rw [hsetB.nq]; exact hpB
+    have eA := hrightA p hpA1 f (by rw [hsetA.cur]; exact hfA) (by rw [hsetA.specs]; exact hlA)
+    have eB := hrightB p hpB1 f (by rw [hsetB.cur]; exact hfB) (by rw [hsetB.specs]; exact hlB)
+    rw [← hsetA.inv.rows p hpA1 f, ← hsetB.inv.rows p hpB1 f, eA, eB, hsetA.specs, hsetB.specs]
+    rcases hown with ⟨ha, hnb⟩ | ⟨hb, hna⟩
+    · exact ((h.ba p ha hnb).2 f hlB)
+    · exact ((h.ab p hb hna).2 f hlA).symm
+
+/-- The pair invariant also pins each session's copy of a remote player's stream to the owner's:
+whatever B holds of a player of A is, entry by entry, what A's own queue specification holds. -/
+theorem C01_pair_prefix (x y : (P2P × TLState) × (P2P × TLState)) (h0 : PPInv x) (hrun : PStar x y) :
+    ∃ ghA ghB, SessInv y.1.1 ghA y.1.2 [] ∧ SessInv y.2.1 ghB y.2.2 [] ∧
+      LinkRel y.1.1 y.2.1 ghA ghB ∧ LinkRel y.2.1 y.1.1 ghB ghA := by
+  obtain ⟨ghA, ghB, h⟩ := PPInv_run x y h0 hrun
+  exact ⟨ghA, ghB, h.sa, h.sb, h.ab, h.ba⟩
+
+end Ggrs
+
+namespace Ggrs
+
+/-- **Non-vacuity of the pair world.** Two freshly built sessions satisfy the pair invariant, and
+the world contains the run it is meant for: both users submit inputs, both sessions simulate frame 0
+predicting the other's input, each then receives the other's frame 0 — read off the owner's queue,
+and different from the prediction —, and both roll back on their next call and reach frame 2. -/
+theorem C01_pair_nonvacuous :
+    PPInv ((demoSession, ⟨0, fun _ => []⟩), (demoPeer, ⟨0, fun _ => []⟩)) ∧
+    (∃ tA' tB', PStar ((demoSession, ⟨0, fun _ => []⟩), (demoPeer, ⟨0, fun _ => []⟩)) ((demoS2, tA'), (demoB2, tB'))) ∧
+    demoS2.sync.currentFrame = 2 ∧ demoB2.sync.currentFrame = 2 :=
+  ⟨PPInv_init demoSession demoPeer _ _ 2 rfl rfl rfl rfl rfl rfl rfl rfl, demo_pair_run _ _, by decide, demo_frameB2⟩
 
 end Ggrs
